@@ -450,8 +450,13 @@ func applyGarbage(b []byte, g string) []byte {
 			b[off] ^= byte(mask)
 		}
 	case "set":
+		// always changes the byte (the outcome must not depend on what a kernel-chosen port byte
+		// happened to be)
 		off, val := atoi(args[0]), atoi(args[1])
 		if off < len(b) {
+			if b[off] == byte(val) {
+				val ^= 0xff
+			}
 			b[off] = byte(val)
 		}
 	case "append":
